@@ -3,11 +3,14 @@ import os
 from .. import core, scene, scenecheck as sc, gen
 
 
-def corpus(pid):
-    p = os.path.join(core.ROOT, "corpus", pid + ".cases")
-    if not os.path.exists(p):
-        return []
-    return [l.strip() for l in open(p) if l.strip() and not l.startswith("#")]
+def corpus(pid, tier="quick"):
+    """minimised failing inputs kept from earlier findings; <pid>.thorough.cases holds the expensive ones"""
+    out = []
+    for name in [pid + ".cases"] + ([pid + ".thorough.cases"] if tier == "thorough" else []):
+        p = os.path.join(core.ROOT, "corpus", name)
+        if os.path.exists(p):
+            out += [l.strip() for l in open(p) if l.strip() and not l.startswith("#")]
+    return out
 
 
 def stats(lines):
@@ -29,7 +32,7 @@ def run_property(ctx, cfg, n_quick, n_thorough, rule, concrete, assumptions, non
         return core.finish(ctx, rule=rule)
     core.proof_gate(ctx)
     n = n_quick if ctx.tier == "quick" else n_thorough
-    lines = corpus(ctx.pid) + [scene.rand_scene(ctx.rng, i, cfg) for i in range(n)]
+    lines = corpus(ctx.pid, ctx.tier) + [scene.rand_scene(ctx.rng, i, cfg) for i in range(n)]
     if extra_lines:
         lines += extra_lines(ctx, len(lines))
     try:
